@@ -29,12 +29,30 @@ def compat_cases(ctx):
     forms = {
         "plain": rc.record_frame(name, fields, ["v", 5, "src", "cls", gen7, 1]),
         "extra-trailing-metadata": rc.record_frame(name, fields, ["v", 5, "src", "cls", gen7, "future-field", 12345, 1]),
+        "one-extra-trailing-metadata": rc.record_frame(name, fields, ["v", 5, "src", "cls", gen7, "future-field", 1]),
+        "three-extra-trailing-metadata": rc.record_frame(name, fields, ["v", 5, "src", "cls", gen7, "f1", None, [1, 2], 1]),
         "no-version-field": rc.record_frame(name, fields, ["v", 5, "src", "cls", gen7]),
         "bare-name-identifier": rc.record_frame(name, fields, ["v", 5, "src", "cls", gen7, 1], identifier="name"),
         "other-version": rc.record_frame(name, fields, ["v", 5, "src", "cls", gen7, 2]),
         "repeated-header": H + rc.record_frame(name, fields, ["v", 5, "src", "cls", gen7, 1]),
         "str-header": None,
     }
+    # streams archived from Python 2 era releases carry type and field names in the bin family
+    B = rc.Bin
+    py2_desc = rc.frame(rc.ext(rc.T_DESC, [B(name.encode()), [[B(t.encode()), B(n.encode())] for t, n in fields]]))
+    py2_rec = rc.frame(rc.ext(rc.T_RECORD, [[B(name.encode()), rc.descriptor_hash(name, fields)], ["v", 5, "src", "cls", gen7, 1]]))
+    py2_grp = rc.frame(rc.ext(rc.T_GROUPED, [B(b"grp/x"), [[[B(name.encode()), rc.descriptor_hash(name, fields)], ["v", 5, "src", "cls", gen7, 1]]]]))
+    for form, body in (("py2-bin-names", py2_rec), ("py2-bin-names-grouped", py2_grp)):
+        ctx.case(("compat", form))
+        try:
+            recs = list(RecordStreamReader(io.BytesIO(H + py2_desc + body)))
+            r0 = recs[0].records[0] if form.endswith("grouped") else recs[0]
+            ok = len(recs) == 1 and r0.a == "v" and r0.n == 5 and r0._desc.name == name and [n for _, n in r0._desc.get_field_tuples()] == ["a", "n"]
+            exc = "none"
+        except Exception as e:
+            ok, exc = False, type(e).__name__ + ":" + str(e)[:80]
+        if not ok:
+            ctx.violation({"check": "compat-form", "form": form}, {"exc": exc})
     for form, fr in forms.items():
         if fr is None:
             continue
